@@ -203,8 +203,9 @@ def specStep (c : Ctx) (st : SpecState) (op : Op) (o : Obs) :
       | none, none =>
         -- the multi-file reader reports "too late" by starting over at the newest
         -- entry; allowed only when the timestamp really is later than every
-        -- entry of some non-empty file
-        if c.stamps.any (fun s => !s.isEmpty && s.all (· < ts)) then
+        -- entry of some non-empty file (with no file at all the reader has
+        -- nothing to seek in: it reports success and every read is `io.EOF`)
+        if ds.isEmpty || c.stamps.any (fun s => !s.isEmpty && s.all (· < ts)) then
           (none, ⟨noPromise ds.length, some (allRev ds)⟩)
         else (some "C20.seek.absent-ok", ⟨noPromise ds.length, none⟩)
       | none, some e =>
